@@ -71,7 +71,7 @@ func checkC11(o options) int {
 		if o.tier == "thorough" {
 			wall = 25 * time.Minute
 		} else {
-			wall = 30 * time.Second
+			wall = 45 * time.Second
 		}
 	}
 	known := loadKnown("C11")
